@@ -225,6 +225,36 @@ fn index_ctors(rep: &mut Report) {
     rep.class("ctor|index-invalid-panic");
     rep.class("ctor|offset-valid");
     rep.class("ctor|offset-invalid-panic");
+    // no way of producing an index leaves 0..512: stepping (checked, panicking and open-ended ranges), all starts x counts
+    // around the edges
+    use core::iter::Step;
+    for s in (0..512u16).filter(|s| *s < 4 || *s > 507 || s % 37 == 0) {
+        let is = PageTableIndex::new(s);
+        for n in [0usize, 1, 2, 3, 511 - s as usize, 512 - s as usize, 513 - s as usize, s as usize, s as usize + 1, 512, 65535, 65536, 65536 + 511 - s as usize, usize::MAX] {
+            rep.eval();
+            let outs: [Result<Option<u16>, ()>; 4] = [
+                catch(|| Step::forward_checked(is, n).map(u16::from)),
+                catch(|| Step::backward_checked(is, n).map(u16::from)),
+                catch(|| Some(u16::from(Step::forward(is, n)))),
+                catch(|| Some(u16::from(Step::backward(is, n)))),
+            ];
+            for (k, o) in outs.iter().enumerate() {
+                if let Ok(Some(v)) = o {
+                    if *v >= 512 {
+                        rep.violation(&format!("PageTableIndex|{}|index-left-0..512", ["forward_checked", "backward_checked", "Step::forward", "Step::backward"][k]), J::obj(vec![("start", J::U(s as u64)), ("count", J::hex(n as u64)), ("got", J::U(*v as u64))]));
+                    }
+                }
+            }
+        }
+        // an open-ended range of indices stops (or panics) at 511; it never yields 512
+        let got = catch(|| (is..).take(520 - s as usize).map(u16::from).collect::<Vec<u16>>());
+        if let Ok(v) = got {
+            if v.iter().any(|&x| x >= 512) {
+                rep.violation("PageTableIndex|RangeFrom|index-left-0..512", J::obj(vec![("start", J::U(s as u64))]));
+            }
+        }
+    }
+    rep.class("index|stepping-stays-in-range");
     rep.exhaustive.push("all u16 for PageTableIndex::{new,new_truncate}, PageOffset::{new,new_truncate}".into());
 }
 
